@@ -652,6 +652,17 @@ def AdmitsOnlyFullWriters {β : Type} (ml : MaskedLib β) : Prop :=
 /-- the span as a fresh zeroed buffer shows it (what `dns.Msg.Pack` returns). -/
 def spanInFresh (span : List (Option UInt8)) : Bytes := span.map fun o => o.getD 0
 
+/-! ### DNS-over-QUIC (server/doq/response_writer.go) -/
+
+def Msg.withId {ν : Type} (m : Msg ν) (id : Nat) : Msg ν := { m with hdr := { m.hdr with id := id } }
+
+/-- `func (w *ResponseWriter) WriteMsg(m)`: `m.Id = 0` (RFC 9250 §4.2.1), the
+library's `Pack`, then `Write(addPrefixLen(packed))`: what goes on the stream. -/
+def doqWriteMsg {β ν δ : Type} (lib : Lib β ν δ) (m : Msg ν) (heap : Heap β) : Option Bytes :=
+  match (libPack lib (m.withId 0) heap).1 with
+  | .ok b => some (be16 b.length ++ b)
+  | _ => none
+
 /-! ### the pool -/
 
 /-- pooled states are clean: nothing of a message left, dictionary absent or empty. -/
